@@ -304,6 +304,22 @@ class Interp:
             return ("app", "unwrap", (args[0],))
         if callee.endswith("clone::Clone::clone") or callee.endswith("::clone") or callee.endswith("ToOwned::to_owned"):
             return args[0]
+        # Option → Result and the `?` desugaring (Try::branch + match on ControlFlow)
+        if callee.endswith("Option::<T>::ok_or_else") or callee.endswith("Option::<T>::ok_or"):
+            if args[0][0] == "some":
+                return Vt("std::result::Result", "Ok", args[0][1])
+            if args[0][0] == "none":
+                return Vt("std::result::Result", "Err", ("s", "err"))
+        if callee.endswith("ops::Try::branch") or callee.endswith("::branch"):
+            a = args[0]
+            if a[0] == "some":
+                return Vt("std::ops::ControlFlow", "Continue", a[1])
+            if a[0] == "none":
+                return Vt("std::ops::ControlFlow", "Break", a)
+            if a[0] == "v" and a[2] in ("Ok", "Some") and len(a[3]) == 1:
+                return Vt("std::ops::ControlFlow", "Continue", a[3][0][1])
+            if a[0] == "v" and a[2] in ("Err", "None"):
+                return Vt("std::ops::ControlFlow", "Break", a)
         if callee.endswith("convert::Into::into") or callee.endswith("convert::From::from"):
             # generic, unresolved
             return ("app", callee, tuple(args))
